@@ -267,7 +267,11 @@ func (g *Gen) Next() Op {
 	case KUnregister:
 		return Op{K: KUnregister, F: g.R.Intn(MaxFilters)}
 	case KOpenQuery:
-		return Op{K: KOpenQuery, F: g.R.Intn(MaxFilters), W: g.R.Intn(2), QR: g.queryRels()}
+		n := 0
+		if g.P.Name == "C07" && g.R.Chance(0.04) {
+			n = 66 // burst up to the capacity of 64 and beyond
+		}
+		return Op{K: KOpenQuery, F: g.R.Intn(MaxFilters), W: g.R.Intn(2), QR: g.queryRels(), N: n}
 	case KNext:
 		return Op{K: KNext, Q: g.R.Intn(64), N: g.R.Intn(12)}
 	case KCloseQuery:
@@ -305,7 +309,7 @@ func (g *Gen) Next() Op {
 	case KMisuse:
 		return g.genMisuse()
 	case KRegistry:
-		m := []string{"fill", "fill", "overflow", "locked", "stable", "stable"}[g.R.Intn(6)]
+		m := []string{"fill", "fill", "overflow", "locked", "stable", "stable", "use", "use"}[g.R.Intn(8)]
 		n := g.R.Intn(1000)
 		if m == "fill" && g.R.Chance(0.3) {
 			n = -1 // fill up to the maximum
